@@ -22,7 +22,7 @@ import (
 func init() {
 	Registry["C12"] = &Check{
 		Scenarios: c12Scenarios,
-		Rule: "peer scripts: MaxRetransmits R in {0,1,2} (thorough 0..3); for the k-th CER received the peer does one of {nothing, success CEA, failing CEA 5010, CEA without Origin-Host, CEA without Result-Code, success CEA without any application, success CEA with an unsupported application, success CEA whose only application information is a Vendor-Specific-Application-Id group {Vendor-Id, unsupported id} / {Vendor-Id} / {Vendor-Id, supported id}, disconnect} after a delay in {0, 1/2, 1, 3/2} RetransmitInterval on the virtual clock; quick: every script with one answering CER index, thorough: also every script with two answering indexes; after a success every set of extras from {duplicate success CEA, late failing CEA, RAA, both a CEA and an RAA}. Every schedule of client goroutines, reader, timers and peer steps up to preemption bound 2 (quick) / unbounded (thorough); timers that are due may fire at any later step, so every tie ordering is explored.",
+		Rule: "peer scripts: MaxRetransmits R in {0,1,2} (thorough 0..3); for the k-th CER received the peer does one of {nothing, success CEA, failing CEA 5010, CEA without Origin-Host, CEA without Result-Code, success CEA without any application, success CEA with an unsupported application, success CEA whose only application information is a Vendor-Specific-Application-Id group {Vendor-Id, unsupported id} / {Vendor-Id} / {Vendor-Id, supported id}, disconnect} after a delay in {0, 1/2, 1, 3/2} RetransmitInterval on the virtual clock; scenarios in which the transport takes 1/2 or 3/2 interval to accept a CER (slow writes); quick: every script with one answering CER index, thorough: also every script with two answering indexes; after a success every set of extras from {duplicate success CEA, late failing CEA, RAA, both a CEA and an RAA}. Every schedule of client goroutines, reader, timers and peer steps up to preemption bound 2 (quick) / unbounded (thorough); timers that are due may fire at any later step, so every tie ordering is explored.",
 		Assume: []string{"virtual time: writes and computation take no time; lateness exists only where the peer script introduces it", "data-race freedom between visible operations (audited separately with -race)"},
 		QuickBudget: 150, ThoroughBudget: 2400,
 	}
@@ -93,6 +93,24 @@ func c12Scenarios(tier string) []*Scenario {
 				}
 			}
 		}
+		// a transport that takes 3/2 (or 1/2) interval to accept a CER: the retransmission clock must
+		// start when the transmission is complete
+		if R <= 1 {
+			for _, d := range []time.Duration{c12Interval * 3 / 2, c12Interval / 2} {
+				for _, kind := range []string{"success", "nothing"} {
+					sc := append([]c12Act{}, silent...)
+					if kind == "success" {
+						sc[0] = c12Act{Kind: "success", Delay: 0}
+					}
+					out = append(out, c12ScenarioSlow(R, sc, nil, bound, []time.Duration{d}))
+					if R == 1 && kind == "nothing" {
+						sc2 := append([]c12Act{}, silent...)
+						sc2[1] = c12Act{Kind: "success", Delay: 0}
+						out = append(out, c12ScenarioSlow(R, sc2, []string{"raa"}, bound, []time.Duration{d, d}))
+					}
+				}
+			}
+		}
 		if thorough && R >= 1 && R <= 2 {
 			// two answering indexes
 			for k1 := 0; k1 <= R; k1++ {
@@ -129,11 +147,18 @@ func c12Name(R int, script []c12Act, extras []string) string {
 }
 
 func c12Scenario(R int, script []c12Act, extras []string, bound int) *Scenario {
+	return c12ScenarioSlow(R, script, extras, bound, nil)
+}
+
+// c12ScenarioSlow: slow[k] is the virtual time the k-th transport Write takes (a peer or
+// transport that is slow to take the CER off the wire).
+func c12ScenarioSlow(R int, script []c12Act, extras []string, bound int, slow []time.Duration) *Scenario {
 	body := func() {
 		st := &c12State{}
 		c12st = st
 		conn := vnet.NewConn("C")
 		conn.Pieces = 1
+		conn.WriteDelays = slow
 		st.conn = conn
 		settings := &sm.Settings{OriginHost: "cli", OriginRealm: "test", VendorID: 13, ProductName: "prod", FirmwareRevision: 7,
 			HostIPAddresses: []datatype.Address{datatype.Address(net.ParseIP("10.0.0.2")), datatype.Address(net.ParseIP("10.0.0.3"))}}
@@ -278,9 +303,14 @@ func c12Scenario(R int, script []c12Act, extras []string, bound int) *Scenario {
 		}
 		// expected outcome: the first decisive event delivered strictly before the last interval
 		// expired decides; at the exact deadline either outcome is allowed
-		deadline := time.Duration(R+1) * c12Interval
-		if len(st.cerAt) > 0 {
-			deadline += st.cerAt[0]
+		// The handshake may wait one interval after each of its R+1 transmissions. An event
+		// delivered while fewer than R+1 transmissions have been made arrived during an earlier
+		// wait; after the last transmission the deadline is its completion time + one interval
+		// (a transmission is complete when the transport has accepted it, i.e. when the peer
+		// sees it - writes may be slow).
+		deadline := time.Duration(-1)
+		if len(st.cerAt) >= R+1 {
+			deadline = st.cerAt[R] + c12Interval
 		}
 		expect := "timeout"
 		tie := false
@@ -289,10 +319,10 @@ func c12Scenario(R int, script []c12Act, extras []string, bound int) *Scenario {
 				continue
 			}
 			at := st.deliveredAt[i]
-			if at > deadline {
+			if deadline >= 0 && at > deadline {
 				break
 			}
-			if at == deadline {
+			if deadline >= 0 && at == deadline {
 				tie = true
 			}
 			if k == "success" {
@@ -335,7 +365,11 @@ func c12Scenario(R int, script []c12Act, extras []string, bound int) *Scenario {
 		st := c12st
 		return fmt.Sprintf("conn=%v err=%v cers=%d raa=%d/%d closed=%v", st.retConn, st.retErr, len(st.cers), st.raaHandled, st.raaSent, st.conn.Closed)
 	}
-	return &Scenario{Name: c12Name(R, script, extras), Body: body, Check: check, Outcome: outcome, Bound: bound,
+	name := c12Name(R, script, extras)
+	if slow != nil {
+		name += fmt.Sprintf("/slow-writes%v", slow)
+	}
+	return &Scenario{Name: name, Body: body, Check: check, Outcome: outcome, Bound: bound,
 		Horizon: time.Duration(R+4) * c12Interval, Weight: R*3 + len(extras)*2}
 }
 
